@@ -59,6 +59,14 @@ func (s *Source) Read(p []byte) (int, error) {
 		return 0, nil
 	}
 	if s.Pos >= int64(len(s.Data)) {
+		if s.FaultAt == int64(len(s.Data)) && s.armed && s.Pos == s.FaultAt {
+			// the fault sits where end-of-file would be reported: every byte was delivered, then the source fails
+			s.Fired = true
+			if !s.Sticky {
+				s.armed = false
+			}
+			return 0, ErrInjectedRead
+		}
 		return 0, io.EOF
 	}
 	n := len(p)
@@ -128,12 +136,20 @@ func (n NoSeek) Read(p []byte) (int, error) { return n.S.Read(p) }
 type FailingReader struct {
 	Data []byte
 	N    int
-	pos  int
+	// Err is the error delivered (default ErrInjectedRead); WithData makes the read that delivers the
+	// last of the N bytes return them together with the error.
+	Err      error
+	WithData bool
+	pos      int
 }
 
 func (f *FailingReader) Read(p []byte) (int, error) {
+	e := f.Err
+	if e == nil {
+		e = ErrInjectedRead
+	}
 	if f.pos >= f.N {
-		return 0, ErrInjectedRead
+		return 0, e
 	}
 	n := len(p)
 	if n > f.N-f.pos {
@@ -141,5 +157,8 @@ func (f *FailingReader) Read(p []byte) (int, error) {
 	}
 	copy(p, f.Data[f.pos:f.pos+n])
 	f.pos += n
+	if f.WithData && f.pos >= f.N && n > 0 {
+		return n, e
+	}
 	return n, nil
 }
